@@ -512,4 +512,147 @@ theorem finishChildren_rel (o : Opts) {e1 e2 : List Node} (he : HintRelL e1 e2) 
                  by simpa only [finishChildren] using hs⟩
   · simp only [finishChildren]; exact hfall
 
+/-! ### runtime directives -/
+
+def typeAttrStep (a : Node) : Option Node :=
+  match a with
+  | .mk .jsxAttr _ [.mk .ident (n :: _) _, v] => if n == "type" && !isNone v then some v else none
+  | _ => none
+
+theorem typeAttrOf_eq (attrs : List Node) : typeAttrOf attrs = attrs.findSome? typeAttrStep := rfl
+
+theorem typeAttrStep_rel {a b : Node} (h : HintRel a b) : OptRel (typeAttrStep a) (typeAttrStep b) := by
+  cases h with
+  | vnode => simp [typeAttrStep, OptRel]
+  | node k as hl =>
+    cases k <;> try (simp [typeAttrStep, OptRel]; done)
+    rcases hl with _ | ⟨h1, _ | ⟨h2, _ | ⟨h3, hl⟩⟩⟩ <;> try (simp [typeAttrStep, OptRel]; done)
+    cases h1 with
+    | vnode => simp [typeAttrStep, OptRel]
+    | node k2 as2 hl2 =>
+      cases k2 <;> try (simp [typeAttrStep, OptRel]; done)
+      rcases as2 with _ | ⟨n, r⟩
+      · simp [typeAttrStep, OptRel]
+      · simp only [typeAttrStep, h2.isNone]
+        split
+        · exact h2
+        · trivial
+
+theorem typeAttrOf_rel {a b : List Node} (h : HintRelL a b) : OptRel (typeAttrOf a) (typeAttrOf b) := by
+  rw [typeAttrOf_eq, typeAttrOf_eq]
+  induction a generalizing b with
+  | nil => cases h; trivial
+  | cons x xs ih =>
+    cases h with
+    | cons hx hxs =>
+      simp only [List.findSome?_cons]
+      rcases (typeAttrStep_rel hx).elim with ⟨h1, h2⟩ | ⟨u, v, h1, h2, huv⟩
+      · rw [h1, h2]; exact ih hxs
+      · rw [h1, h2]; exact huv
+
+def tagIdentOf (tagN : Node) : Option String :=
+  match tagN with
+  | .mk .ident (n :: _) _ => some n
+  | _ => none
+
+/-- the model directive chosen by the `type` attribute -/
+def modelByType (v : Option Node) (st : St) : Node × St :=
+  match v with
+  | some (.mk .str (s :: _) _) =>
+    if s == "checkbox" then st.importFromVue "vModelCheckbox"
+    else if s == "radio" then st.importFromVue "vModelRadio"
+    else st.importFromVue "vModelText"
+  | none => st.importFromVue "vModelText"
+  | some _ => st.importFromVue "vModelDynamic"
+
+theorem resolveDirective_eq (name : String) (tagN : Node) (attrs : List Node) (st : St) :
+    resolveDirective name tagN attrs st =
+      (if name == "show" then st.importFromVue "vShow"
+       else if name == "model" then
+         (if tagIdentOf tagN == some "select" then st.importFromVue "vModelSelect"
+          else if tagIdentOf tagN == some "textarea" then st.importFromVue "vModelText"
+          else modelByType (typeAttrOf attrs) st)
+       else
+         let (rd, st) := st.importFromVue "resolveDirective"
+         (nCall rd [nArg (nStr name)], st)) := by
+  unfold resolveDirective modelByType tagIdentOf
+  rfl
+
+theorem tagIdentOf_rel {a b : Node} (h : HintRel a b) : tagIdentOf a = tagIdentOf b := by
+  cases h with
+  | vnode => rfl
+  | node k as hl =>
+    cases k <;> try rfl
+    cases as <;> rfl
+
+theorem modelByType_rel {v1 v2 : Option Node} (h : OptRel v1 v2) {s1 s2 : St} (hs : StSim s1 s2) :
+    (modelByType v1 s1).1 = (modelByType v2 s2).1 ∧ StSim (modelByType v1 s1).2 (modelByType v2 s2).2 := by
+  rcases h.elim with ⟨h1, h2⟩ | ⟨x, y, h1, h2, hxy⟩
+  · subst h1 h2; exact hs.importFromVue _
+  · subst h1 h2
+    cases hxy with
+    | vnode => exact hs.importFromVue _
+    | node k as hl =>
+      cases k <;> try (exact hs.importFromVue _)
+      rcases as with _ | ⟨s, r⟩
+      · exact hs.importFromVue _
+      · simp only [modelByType]
+        split
+        · exact hs.importFromVue _
+        · split <;> exact hs.importFromVue _
+
+theorem resolveDirective_rel (name : String) {t1 t2 : Node} (ht : HintRel t1 t2) {a1 a2 : List Node} (ha : HintRelL a1 a2)
+    {s1 s2 : St} (hs : StSim s1 s2) :
+    (resolveDirective name t1 a1 s1).1 = (resolveDirective name t2 a2 s2).1 ∧
+      StSim (resolveDirective name t1 a1 s1).2 (resolveDirective name t2 a2 s2).2 := by
+  rw [resolveDirective_eq, resolveDirective_eq, tagIdentOf_rel ht]
+  split
+  · exact hs.importFromVue _
+  · split
+    · split
+      · exact hs.importFromVue _
+      · split
+        · exact hs.importFromVue _
+        · exact modelByType_rel (typeAttrOf_rel ha) hs
+    · obtain ⟨i1, i2⟩ := hs.importFromVue "resolveDirective"
+      rcases f1 : s1.importFromVue "resolveDirective" with ⟨rd1, u1⟩
+      rcases f2 : s2.importFromVue "resolveDirective" with ⟨rd2, u2⟩
+      rw [f1, f2] at i1 i2
+      dsimp only at i1 i2 ⊢
+      subst i1
+      exact ⟨rfl, i2⟩
+
+theorem optArgList_rel (o1 o2 : Option Node) : OptRel o1 o2 →
+    HintRelL (match o1 with | some a => [nArg a] | none => []) (match o2 with | some a => [nArg a] | none => []) := by
+  intro h
+  rcases h.elim with ⟨h1, h2⟩ | ⟨x, y, h1, h2, hxy⟩
+  · subst h1 h2; exact .nil
+  · subst h1 h2; exact .cons (rel_nArg hxy) .nil
+
+theorem dirEntries_rel {t1 t2 : Node} (ht : HintRel t1 t2) {a1 a2 : List Node} (ha : HintRelL a1 a2)
+    {d1 d2 : List (String × Option Node × Option Node × Node)} (hd : DirsRel d1 d2) {s1 s2 : St} (hs : StSim s1 s2) :
+    HintRelL (dirEntries t1 a1 d1 s1).1 (dirEntries t2 a2 d2 s2).1 ∧ StSim (dirEntries t1 a1 d1 s1).2 (dirEntries t2 a2 d2 s2).2 := by
+  induction hd generalizing s1 s2 with
+  | nil => exact ⟨.nil, hs⟩
+  | @cons x y xs ys hx _ ih =>
+    obtain ⟨n1, ar1, m1, v1⟩ := x
+    obtain ⟨n2, ar2, m2, v2⟩ := y
+    obtain ⟨hn, har, hm, hv⟩ := hx
+    dsimp only at hn har hm hv
+    subst hn
+    simp only [dirEntries]
+    obtain ⟨r1, r2⟩ := resolveDirective_rel n1 ht ha hs
+    rcases e1 : resolveDirective n1 t1 a1 s1 with ⟨dd1, u1⟩
+    rcases e2 : resolveDirective n1 t2 a2 s2 with ⟨dd2, u2⟩
+    rw [e1, e2] at r1 r2
+    dsimp only at r1 r2 ⊢
+    subst r1
+    obtain ⟨q1, q2⟩ := ih r2
+    rcases f1 : dirEntries t1 a1 xs u1 with ⟨more1, w1⟩
+    rcases f2 : dirEntries t2 a2 ys u2 with ⟨more2, w2⟩
+    rw [f1, f2] at q1 q2
+    dsimp only at q1 q2 ⊢
+    refine ⟨.cons (rel_nArg (rel_nArray ?_)) q1, q2⟩
+    exact ((HintRelL.cons (HintRel.refl _) (.cons (rel_nArg hv) .nil)).append (optArgList_rel _ _ har)).append (optArgList_rel _ _ hm)
+
 end VueJsx
